@@ -36,16 +36,34 @@ import (
 // ---------------------------------------------------------------------------------------
 // the bound
 
-// The bound: B(n) = budgetC·(n+16)·min(n+16, budgetKnee) logical steps (lexer main-loop
-// iterations + parser current() calls) for one entry-point call on n bytes: quadratic
-// 40·(n+16)² for tiny inputs (where the constant part of a parse dominates) and linear
-// 2000·(n+16) from 34 bytes on. The largest ratios observed over the complete corpus
-// enumeration, the generated programs, the enumerated short strings and the nesting
-// stressors are recorded in the evidence (max_ratio_quadratic, max_ratio_linear…); the
-// constants are more than 100 times those (see NOTES.md).
+// The bound on one entry-point call on n bytes, in logical steps (lexer main-loop iterations +
+// parser current() calls, counted by the verifhook.Step hook):
+//
+//   - hard bound: at most B(n) = 40·(n+16)² steps. Quadratic because the parser legitimately
+//     rescans (a `$a, $b, …` list is looked ahead for a multi-assignment at every element:
+//     about 0.1·n² steps on a list of n bytes; the largest ratio steps/(n+16)² observed over
+//     the complete corpus enumeration, the generated programs, all short strings and the
+//     nesting stressors is below 0.4 and is recorded in the evidence);
+//   - stall bound (parser entry points): never S(n) = 2000·(n+16) consecutive steps during
+//     which the position of the top-level parser (exported Parser.StartPosition()) takes at
+//     most 8 distinct values, nor 10 000 consecutive steps with that position more than 16
+//     past the largest possible token index (n). "The parser position must strictly advance or
+//     the parse must fail" is the property's own anchor; the longest such run observed on a
+//     terminating parse is recorded in the evidence (max_stall_ratio, in units of n+16) and is
+//     more than 100 times smaller;
+//   - backtracking bound (parser entry points): the position of the top-level parser moves
+//     backwards at most K(n) = 100·(n+16) times. The parser backtracks legitimately (a
+//     `$a, …` list is parsed ahead and rewound once per element), about once per token at
+//     most; the largest count observed on a terminating parse, in units of n+16, is recorded
+//     in the evidence (max_backtrack_ratio). Speculative parsing that nests (each level
+//     parsing the rest twice) rewinds exponentially often and is caught here long before the
+//     hard bound.
 const (
-	budgetC    = 40
-	budgetKnee = 50
+	budgetC     = 40
+	stallC      = 2000
+	stallSpread = 8
+	pastEndRun  = 10000
+	backC       = 100
 )
 
 var budgetCur = func() float64 {
@@ -58,15 +76,13 @@ var budgetCur = func() float64 {
 
 func budget(n int) int64 {
 	m := float64(n + 16)
-	k := m
-	if k > budgetKnee {
-		k = budgetKnee
-	}
-	return int64(budgetCur * m * k)
+	return int64(budgetCur * m * m)
 }
 
+func stallBudget(n int) int64 { return stallC * int64(n+16) }
+
 const (
-	cpuNetSeconds = 20     // CPU seconds (rusage) one case may use: net for loops that bypass both counters
+	cpuNetSeconds = 20      // CPU seconds (rusage) one case may use: net for loops that bypass both counters
 	heapNetBytes  = 2 << 30 // live heap one case may reach (an input is at most 64 KiB)
 	maxInput      = 64 << 10
 )
@@ -75,11 +91,13 @@ const (
 // results
 
 type eres struct {
-	Entry string `json:"entry"`          // lex | lext | parse | parsef
-	Out   string `json:"out"`            // ok | err | panic | steps | badresult
-	Steps int64  `json:"steps"`          // lexer+parser steps of this call
-	Site  string `json:"site,omitempty"` // panic site / non-advancing loop
-	Kind  string `json:"kind,omitempty"` // class of the panic value
+	Entry string `json:"entry"`           // lex | lext | parse | parsef
+	Out   string `json:"out"`             // ok | err | panic | steps | badresult
+	Steps int64  `json:"steps"`           // lexer+parser steps of this call
+	Back  int64  `json:"back,omitempty"`  // backward moves of the parser position
+	Stall int64  `json:"stall,omitempty"` // longest run of steps with the parser position confined to <= 8 values
+	Site  string `json:"site,omitempty"`  // panic site / non-advancing loop
+	Kind  string `json:"kind,omitempty"`  // class of the panic value
 	Msg   string `json:"msg,omitempty"`
 }
 
@@ -94,29 +112,37 @@ type cres struct {
 }
 
 type wsummary struct {
-	Summary   bool             `json:"summary"`
-	Cases     int              `json:"cases"`
-	Calls     int              `json:"calls"`
-	Outcomes  map[string]int   `json:"outcomes"` // entry/out -> count
-	Steps     [2]int64         `json:"steps"`    // lexer, parser
-	MaxQuad   float64          `json:"max_quad"` // max steps/(n+16)²
-	MaxQuadID string           `json:"max_quad_id"`
-	MaxLin    float64          `json:"max_lin"` // max steps/(n+16)
-	MaxLinID  string           `json:"max_lin_id"`
-	MaxLinBig float64          `json:"max_lin_big"` // same, inputs of at least 256 bytes
-	BigID     string           `json:"max_lin_big_id"`
-	MaxCPUms  float64          `json:"max_cpu_ms"` // largest CPU time (rusage) of one case
-	MaxCPUID  string           `json:"max_cpu_id"`
-	ErrFrom   map[string]int   `json:"err_from"` // how diagnostics carried their position
-	Fam       map[string][]int `json:"fam"`      // family -> [cases, rejected-by-a-parser, accepted-by-both]
-	FamCPUms  map[string]float64 `json:"fam_cpu_ms"`
-	WholeRej  []string         `json:"whole_rej"` // unmodified corpus / generated texts that a parser entry point did not accept
+	Summary    bool               `json:"summary"`
+	Cases      int                `json:"cases"`
+	Calls      int                `json:"calls"`
+	Outcomes   map[string]int     `json:"outcomes"` // entry/out -> count
+	Steps      [2]int64           `json:"steps"`    // lexer, parser
+	MaxQuad    float64            `json:"max_quad"` // max steps/(n+16)²
+	MaxQuadID  string             `json:"max_quad_id"`
+	MaxLin     float64            `json:"max_lin"` // max steps/(n+16)
+	MaxLinID   string             `json:"max_lin_id"`
+	MaxLinBig  float64            `json:"max_lin_big"` // same, inputs of at least 256 bytes
+	BigID      string             `json:"max_lin_big_id"`
+	MaxStall   float64            `json:"max_stall"` // longest stall run / (n+16) of a terminating parse
+	MaxStallID string             `json:"max_stall_id"`
+	MaxBack    float64            `json:"max_back"` // backward moves / (n+16) of a terminating parse
+	MaxBackID  string             `json:"max_back_id"`
+	MaxCPUms   float64            `json:"max_cpu_ms"` // largest CPU time (rusage) of one case
+	MaxCPUID   string             `json:"max_cpu_id"`
+	ErrFrom    map[string]int     `json:"err_from"` // how diagnostics carried their position
+	Fam        map[string][]int   `json:"fam"`      // family -> [cases, rejected-by-a-parser, accepted-by-both]
+	FamCPUms   map[string]float64 `json:"fam_cpu_ms"`
+	FamMaxQuad map[string]float64 `json:"fam_max_quad"`
+	FamMaxBack map[string]float64 `json:"fam_max_back"`
+	WholeRej   []string           `json:"whole_rej"` // unmodified corpus / generated texts that a parser entry point did not accept
 }
 
 type stepAbort struct {
-	site  string
-	chain string // the callers of the site, innermost first (diagnosis only, not part of the key)
-	steps int64
+	site   string
+	chain  string // the callers of the site, innermost first (diagnosis only, not part of the key)
+	steps  int64
+	why    string
+	reason string // bound | stalled | past-end | backtracking
 }
 
 // ---------------------------------------------------------------------------------------
@@ -221,16 +247,93 @@ func lcp(a, b []string) int {
 
 const abortSamples = 600
 
-// installBudget arms the step handler for one entry-point call. Once the count passes the
-// budget the handler samples the call stack at each further step; after abortSamples samples
-// it panics with a sentinel naming the spinning function.
-func installBudget(b int64) {
+// stepState is the per-call state of the step handler.
+type stepState struct {
+	total   int64
+	run     int64 // steps since the position last left the current set of <= stallSpread values
+	maxRun  int64
+	beyond  int64 // consecutive steps with the position past any possible token index
+	back    int64 // number of times the position moved backwards
+	set     [stallSpread]int
+	nset    int
+	lastPos int
+}
+
+var curStep *stepState
+
+// installBudget arms the step handler for one entry-point call on n bytes; pos (may be nil)
+// reads the top-level parser position. Once a bound is passed the handler samples the call
+// stack at each further step; after abortSamples samples it panics with a sentinel naming
+// the spinning function.
+func installBudget(n int, pos func() int) {
 	verifhook.ResetSteps()
+	hard, stall, backMax := budget(n), stallBudget(n), int64(backC)*int64(n+16)
+	st := &stepState{lastPos: -1 << 30}
+	curStep = st
 	var names, files []string
 	samples := 0
-	verifhook.SetStep(func(kind int, n int64) {
-		if n <= b && verifhook.Steps(verifhook.StepLexer)+verifhook.Steps(verifhook.StepParser) <= b {
-			return
+	why, reason := "", ""
+	verifhook.SetStep(func(kind int, _ int64) {
+		st.total++
+		if pos != nil {
+			p := pos()
+			if p != st.lastPos {
+				if p < st.lastPos {
+					st.back++
+				}
+				st.lastPos = p
+				found := false
+				for i := 0; i < st.nset; i++ {
+					if st.set[i] == p {
+						found = true
+						break
+					}
+				}
+				if !found {
+					if st.nset < stallSpread {
+						st.set[st.nset] = p
+						st.nset++
+					} else {
+						if st.run > st.maxRun {
+							st.maxRun = st.run
+						}
+						st.run, st.nset = 0, 1
+						st.set[0] = p
+					}
+				}
+			}
+			st.run++
+			if p > n+16 {
+				st.beyond++
+			} else {
+				st.beyond = 0
+			}
+		}
+		if why == "" {
+			switch {
+			case st.total > hard:
+				// name the symptom that goes with it, so that different defects at one site keep different keys
+				why, reason = fmt.Sprintf("more than B(n)=%d steps", hard), "bound"
+				switch {
+				case st.beyond > 100:
+					reason = "past-end"
+					why += fmt.Sprintf(", the parser position (%d) is past the end of the token list", st.lastPos)
+				case st.run > hard/4:
+					reason = "stalled"
+					why += fmt.Sprintf(", the last %d of them with the parser position confined to %d values", st.run, st.nset)
+				case st.back > int64(n+16):
+					reason = "backtracking"
+					why += fmt.Sprintf(", the parser position was rewound %d times", st.back)
+				}
+			case st.run > stall:
+				why, reason = fmt.Sprintf("%d consecutive steps (more than S(n)=%d) with the parser position confined to %d values", st.run, stall, st.nset), "stalled"
+			case st.beyond > pastEndRun:
+				why, reason = fmt.Sprintf("%d consecutive steps with the parser position (%d) past the end of the token list", st.beyond, st.lastPos), "past-end"
+			case st.back > backMax:
+				why, reason = fmt.Sprintf("the parser position was rewound %d times (more than K(n)=%d) within %d steps: nested speculative parsing", st.back, backMax, st.total), "backtracking"
+			default:
+				return
+			}
 		}
 		nm, fl := callerFrames(2)
 		if samples == 0 {
@@ -241,8 +344,7 @@ func installBudget(b int64) {
 		}
 		samples++
 		if samples >= abortSamples {
-			total := verifhook.Steps(verifhook.StepLexer) + verifhook.Steps(verifhook.StepParser)
-			panic(stepAbort{site: loopSite(names, files), chain: loopChain(names), steps: total})
+			panic(stepAbort{site: loopSite(names, files), chain: loopChain(names), steps: st.total, why: why, reason: reason})
 		}
 	})
 }
@@ -338,17 +440,30 @@ var entryNames = []string{"lex", "lext", "parse", "parsef"}
 // runEntry performs one entry-point call.
 func runEntry(entry string, text []byte, dir string) (res eres, accepted bool, how string) {
 	res.Entry = entry
-	installBudget(budget(len(text)))
+	var p *parser.Parser
+	var pos func() int
+	if entry == "parse" || entry == "parsef" {
+		_, p = newVM()
+		pos = p.StartPosition
+	}
+	installBudget(len(text), pos)
 	defer func() {
 		r := recover()
 		res.Steps = verifhook.Steps(verifhook.StepLexer) + verifhook.Steps(verifhook.StepParser)
 		verifhook.SetStep(nil)
+		if st := curStep; st != nil {
+			res.Stall = st.maxRun
+			if st.run > res.Stall {
+				res.Stall = st.run
+			}
+			res.Back = st.back
+		}
 		if r == nil {
 			return
 		}
 		if sa, ok := r.(stepAbort); ok {
-			res.Out, res.Site, res.Steps = "steps", sa.site, sa.steps
-			res.Msg = fmt.Sprintf("more than B(n)=%d steps for n=%d bytes; frames common to all samples: %s", budget(len(text)), len(text), sa.chain)
+			res.Out, res.Site, res.Steps, res.Kind = "steps", sa.site, sa.steps, sa.reason
+			res.Msg = fmt.Sprintf("%s for n=%d bytes; frames common to all samples: %s", sa.why, len(text), sa.chain)
 			return
 		}
 		res.Out = "panic"
@@ -365,7 +480,6 @@ func runEntry(entry string, text []byte, dir string) (res eres, accepted bool, h
 		_ = toks
 		res.Out = "ok"
 	case "parse", "parsef":
-		_, p := newVM()
 		var prog *node.Program
 		var ctl data.Control
 		path := filepath.Join(dir, "in.zy")
@@ -550,6 +664,8 @@ type caseOut struct {
 	res      cres
 	outcomes [4]string
 	steps    [4]int64
+	stalls   [4]int64
+	backs    [4]int64
 	hows     []string
 }
 
@@ -571,6 +687,8 @@ func runCase(c cspec, text []byte, dir string) (o caseOut) {
 		r, acc, how := runEntry(en, in, dir)
 		o.outcomes[i] = r.Out
 		o.steps[i] = r.Steps
+		o.stalls[i] = r.Stall
+		o.backs[i] = r.Back
 		if how != "" {
 			o.hows = append(o.hows, how)
 		}
@@ -615,7 +733,7 @@ func workerMain(args []string) {
 	lockCaseThread()
 	go watchdog()
 
-	sum := wsummary{Summary: true, Outcomes: map[string]int{}, ErrFrom: map[string]int{}, Fam: map[string][]int{}, FamCPUms: map[string]float64{}}
+	sum := wsummary{Summary: true, Outcomes: map[string]int{}, ErrFrom: map[string]int{}, Fam: map[string][]int{}, FamCPUms: map[string]float64{}, FamMaxQuad: map[string]float64{}, FamMaxBack: map[string]float64{}}
 	for i := start; i < len(j.Cases); i++ {
 		c := j.Cases[i]
 		text := materialise(j.Bases, c)
@@ -664,6 +782,18 @@ func workerMain(args []string) {
 			n := float64(len(text) + 16)
 			if k == 1 || k == 3 {
 				n = float64(len(templateText(text)) + 16)
+			}
+			if br := float64(o.backs[k]) / n; br > sum.FamMaxBack[c.Fam] {
+				sum.FamMaxBack[c.Fam] = br
+			}
+			if q := float64(o.steps[k]) / (n * n); q > sum.FamMaxQuad[c.Fam] {
+				sum.FamMaxQuad[c.Fam] = q
+			}
+			if br := float64(o.backs[k]) / n; br > sum.MaxBack {
+				sum.MaxBack, sum.MaxBackID = br, c.ID+"#"+en
+			}
+			if sr := float64(o.stalls[k]) / n; sr > sum.MaxStall {
+				sum.MaxStall, sum.MaxStallID = sr, c.ID+"#"+en
 			}
 			st := float64(o.steps[k])
 			if q := st / (n * n); q > sum.MaxQuad {
@@ -714,7 +844,7 @@ func boundsMain(args []string) {
 		fmt.Fprintf(logf, "BEGIN %d %s\n", i, bs[i].Name)
 		b := base{Name: bs[i].Name}
 		func() {
-			installBudget(budget(len(bs[i].Src)))
+			installBudget(len(bs[i].Src), nil)
 			defer func() {
 				verifhook.SetStep(nil)
 				if r := recover(); r != nil {
@@ -781,7 +911,7 @@ func oneMain(args []string) {
 						fmt.Println(string(debug.Stack()))
 					}
 				}()
-				installBudget(1 << 40)
+				installBudget(1<<20, nil)
 				switch en {
 				case "lex":
 					lexer.NewLexer().Tokenize(string(in))
